@@ -369,12 +369,15 @@ func TestVerifC15NamePacking(t *testing.T) {
 				if n > 0 {
 					rec.Distinct("nontrivial", desc)
 				}
-			case <-time.After(30 * time.Second):
-				if c15Logs.count("MessageFromWireFormat: ") > parseErrsBefore {
+			case <-time.After(c15Watchdog):
+				if idle, _ := c15RecvLoopsIdle(); idle && len(conn.reads) == 0 && c15Logs.count("MessageFromWireFormat: ") == parseErrsBefore {
+					rec.Violation("namepacking:downstream:answer-read-by-requester-but-swallowed", "the requester's receive loop read the responder's answer, logged no parse error, is parked in its read again, and never delivered the payload",
+						map[string]interface{}{"case": desc, "wire_len": len(wire), "payload_len": n})
+				} else if c15Logs.count("MessageFromWireFormat: ") > parseErrsBefore {
 					rec.Violation("namepacking:downstream:answer-not-parsable", "the answer the responder produced is refused by the requester's parser",
 						map[string]interface{}{"case": desc, "log": c15Logs.last("MessageFromWireFormat: ", 3), "wire_len": len(wire)})
 				} else {
-					rec.Inconclusive("answer not delivered within 30 s", desc)
+					rec.Inconclusive("answer not delivered within the watchdog", desc)
 				}
 				pc.Close() // release the reader
 				<-ch
@@ -583,7 +586,9 @@ func c15RecvLoopsIdle() (bool, int) {
 			continue
 		}
 		n++
-		if !bytes.HasPrefix(blk, []byte("goroutine ")) || !bytes.Contains(blk[:bytes.IndexByte(blk, '\n')+1], []byte("[IO wait")) {
+		hdr := blk[:bytes.IndexByte(blk, '\n')+1]
+		// parked in the UDP socket read ("IO wait") or in the driver's capture conn's Read ("select")
+		if !bytes.HasPrefix(blk, []byte("goroutine ")) || !(bytes.Contains(hdr, []byte("[IO wait")) || bytes.Contains(hdr, []byte("[select"))) {
 			idle = false
 		}
 	}
